@@ -7,6 +7,7 @@ import PqlModel.Props.C02SemanticsCex
 import PqlModel.Props.C05ParseStatement
 import PqlModel.Props.C03Full
 import PqlModel.Props.C02EndToEnd
+import PqlModel.Props.C05Parsed
 #print axioms Pql.C02.C02_canAttachSort_table
 #print axioms Pql.C02.C02_top_eq_sort_take
 #print axioms Pql.C02.C02_spec_top
